@@ -169,3 +169,8 @@ class SymCtx(CtxBase):
         sx_zlib.use_model(True)
         for comp, plain in pairs:
             sx_zlib.register(comp, plain)
+
+    def use_crc_model(self, value):
+        """binascii.crc32 of the linked file is an uninterpreted value chosen by the solver"""
+        from . import sx_binascii
+        sx_binascii.set_crc32((lambda data, crc=0: value) if value is not None else None)
